@@ -136,7 +136,8 @@ def body(spec, stats):
 def streams(tier, avoid):
     big = tier == "thorough"
     mn = 14 if big else 10
-    o1 = G.Opts(max_nodes=mn, phases=True, zero_source=True, avoid=avoid, min_nodes=3)
+    o1 = G.Opts(max_nodes=mn, phases=True, zero_source=True, avoid=avoid, min_nodes=3,
+                odd_phase_conf=True)
     o2 = G.Opts(max_nodes=mn, zero_source=True, avoid=avoid, min_nodes=3)
     return [
         Stream("phases", body, strategy=G.systems(o1), n={"quick": 900, "thorough": 7000},
